@@ -8,7 +8,9 @@ import (
 	"strconv"
 	"strings"
 
+	"github.com/WuKongIM/WuKongIM/internal/bench/chatlifecycle"
 	"github.com/WuKongIM/WuKongIM/internal/bench/workload"
+	slotproxy "github.com/WuKongIM/WuKongIM/pkg/slot/proxy"
 	"github.com/WuKongIM/WuKongIM/pkg/cluster"
 	"github.com/WuKongIM/WuKongIM/pkg/cluster/routing"
 	"github.com/WuKongIM/WuKongIM/pkg/hashslot"
@@ -115,13 +117,15 @@ func (c21Runner) Step(op string) string {
 		return "bad-op"
 	}
 	count := uint16(c)
-	return fmt.Sprintf("%d %d %d %d %d %d",
+	return fmt.Sprintf("%d %d %d %d %d %d %d %d",
 		routing.HashSlotForKey(key, count),
 		hashslot.HashSlotForKey(key, count),
 		workload.VerifPhysicalHashSlotForKey(key, count),
 		cluster.VerifNodeWithHashSlotCount(count).HashSlotForKey(key),
 		routing.VerifChecksumIEEEString(key),
-		crc32.ChecksumIEEE([]byte(key)))
+		crc32.ChecksumIEEE([]byte(key)),
+		chatlifecycle.VerifLifecycleHashSlotForKey(key, count),
+		slotproxy.VerifHashSlotForKey(cluster.VerifNodeWithHashSlotCount(count), key))
 }
 
 // c21Route: `rt <count> <deadmask> <hexkey>...` — 4 logical slots, hash slot h belongs to slot h%4+1,
